@@ -18,7 +18,7 @@ package ws
 //@   nullable: bound
 //@   method_invariant anon ==> bound != nil
 //@   lock lock level 50
-//@   guarded_by lock: pending running closed opts ug
+//@   guarded_by lock: pending running closed opts ug listener bound anon noserve htsvr
 //@   cond cv uses lock
 //@   immutable: addr proto iswss url
 //@   pointee_immutable: url
